@@ -83,6 +83,8 @@ func c18Configs() []c18Cfg {
 				{parquet.PageBufferSize(48)},
 				{parquet.PageBufferSize(48), parquet.DataPageVersion(1), parquet.Compression(&snappy.Codec{})},
 				{parquet.PageBufferSize(48), parquet.BloomFilters(parquet.SplitBlockFilter(10, "ID"), parquet.SplitBlockFilter(10, "Secret")), parquet.MaxRowsPerRowGroup(10)},
+				// several row groups of compressed pages
+				{parquet.PageBufferSize(48), parquet.Compression(&snappy.Codec{}), parquet.MaxRowsPerRowGroup(7)},
 			} {
 				c := c18Cfg{encFooter: ef, colKey: ck, aadPrefix: vi == 1, opts: variant, bloom: vi == 2}
 				c.desc = fmt.Sprintf("footer=%s,colkey=%v,variant=%d", map[bool]string{true: "encrypted", false: "plaintext-signed"}[ef], ck, vi)
@@ -191,7 +193,9 @@ func c18Modules(data []byte, end int) []c18Module {
 
 var c18Modes = []string{"roundtrip+seek", "leak", "keys", "tamper-bytes", "tamper-swap", "tamper-truncate+transplant",
 	// a column chunk with more than 256 pages: modules whose ordinals differ by 256 are exchanged
-	"tamper-swap-256"}
+	"tamper-swap-256",
+	// the writer is reused through Reset: the second file must read back too
+	"roundtrip-after-reset"}
 
 func c18Run(x *engine.X) {
 	cfgs := c18Configs()
@@ -232,6 +236,33 @@ func c18Run(x *engine.X) {
 	}
 
 	switch mode {
+	case "roundtrip-after-reset":
+		var buf bytes.Buffer
+		w := parquet.NewGenericWriter[ERow](&buf, append(append([]parquet.WriterOption{}, cfg.opts...), parquet.WithEncryption(cfg.encryption("fileid-A")))...)
+		for round := 0; round < 3; round++ {
+			rr := c18Rows(24+10*round, fmt.Sprint("R", round))
+			for i := range rr {
+				if _, err := w.Write(rr[i : i+1]); err != nil {
+					x.Failf("write-error", shape, "round %d: %v", round, err)
+					return
+				}
+			}
+			if err := w.Close(); err != nil {
+				x.Failf("write-error", shape, "round %d: Close: %v", round, err)
+				return
+			}
+			var want []string
+			for _, r := range rr {
+				want = append(want, erowString(r))
+			}
+			g, err := c18ReadAll(append([]byte(nil), buf.Bytes()...), cfg.keys(), cfg.bloom, rr)
+			if err != nil || !equalStrings(g, want) {
+				x.Failf("roundtrip", shape+";round="+fmt.Sprint(round), "file %d written by the same writer after Reset does not read back: err=%v rows=%d/%d", round, err, len(g), len(want))
+				return
+			}
+			buf.Reset()
+			w.Reset(&buf)
+		}
 	case "roundtrip+seek":
 		// seek histories on the encrypted file: read r rows, seek to k, read 2 rows
 		f, err := parquet.OpenFile(bytes.NewReader(data), int64(len(data)), parquet.WithDecryption(cfg.keys()))
